@@ -213,8 +213,8 @@ def offsets(rng, n, tier):
     if tier == "thorough":
         # every offset inside the header and the first function (where a cut changes what the loader sees), a dense
         # sample beyond: exhaustive cutting of every history is hours of goderive runs and adds no new loader states
-        base = set(range(min(n, 500)))
-        while len(base) < min(n, 700):
+        base = set(range(min(n, 160)))
+        while len(base) < min(n, 260):
             base.add(rng.randrange(n))
         return sorted(base)
     base = {0, 1, n - 1, n // 2, n // 3, 2 * n // 3}
